@@ -2,27 +2,45 @@ package main
 
 // C07 — every error or recovered panic becomes exactly one well-formed response.
 //
-// Real code: Echo.ServeHTTP + Echo.DefaultHTTPErrorHandler + middleware.Recover, driven through
-// e.ServeHTTP on a recording http.ResponseWriter (every WriteHeader call, every Write as its own
-// chunk); in the thorough tier additionally through a real httptest.Server round trip.
-// Model: lean/EchoModel/C07.lean (serve).
+// Real code: Echo.ServeHTTP + Echo.DefaultHTTPErrorHandler + Context.Error + middleware.Recover
+// (all constructors and options), driven through e.ServeHTTP on a recording http.ResponseWriter
+// (every WriteHeader call, every Write as its own chunk); in the thorough tier additionally
+// through a real httptest.Server round trip.
+// Model: lean/EchoModel/C07.lean (serve / serveAll).
+//
+// A case is an Echo configuration (Debug, a middleware chain of Recover instances and
+// error-reporting middlewares placed at Pre / Use / group / route level, optionally a counting
+// wrapper as Echo.HTTPErrorHandler) and a SEQUENCE of failing requests through that one Echo.
+// Error values are trees built from errors.New / fmt.Errorf(%w) / *echo.HTTPError and from the
+// well-known error VALUES of the standard library and of echo itself (context.Canceled, io.EOF,
+// echo.ErrNotFound, echo.ErrInternalServerError.SetInternal(x), ...).  SetInternal on one of
+// echo's exported variables changes process-wide state; the harness keeps a symbolic copy of that
+// state (c07Heap) so that the oracle and the model are given the tree each value really has when
+// it is handled, runs such cases under an exclusive lock and restores the variables afterwards.
 
 import (
 	"bytes"
+	"context"
+	"database/sql"
 	"encoding/json"
 	"errors"
 	"fmt"
 	"io"
 	"math/rand"
+	"net"
 	"net/http"
 	"net/http/httptest"
+	"os"
 	"regexp"
 	"sort"
 	"strconv"
 	"strings"
+	"sync"
+	"time"
 
 	"github.com/labstack/echo/v4"
 	"github.com/labstack/echo/v4/middleware"
+	"github.com/labstack/gommon/log"
 )
 
 type c07Msg struct {
@@ -37,12 +55,36 @@ type c07Err struct {
 	Code int     `json:"code,omitempty"`
 	Msg  *c07Msg `json:"msg,omitempty"`
 	In   *c07Err `json:"in,omitempty"` // wrap: inner; http: Internal (nil = none)
-	V    int     `json:"v,omitempty"`  // how the HTTPError is constructed
+	V    int     `json:"v,omitempty"`  // how the HTTPError is constructed / Internal attached (V%3==0: WithInternal, else SetInternal)
+	// plain: 1-based index into c07StdErrs — the error IS that well-known value (context.Canceled, ...)
+	Std int `json:"std,omitempty"`
+	// http: 1-based index into c07EchoSent — the error is built from that exported echo variable
+	// (code and default message are the variable's; In == nil: the variable itself, with whatever
+	// Internal an earlier SetInternal left in it)
+	Sent int `json:"sent,omitempty"`
+}
+
+// one middleware of the chain
+type c07Layer struct {
+	K string `json:"k"` // recover | cerr
+	// recover
+	Default    bool    `json:"default,omitempty"` // middleware.Recover(): no config at all
+	DisableEH  bool    `json:"disable_eh,omitempty"`
+	LogFn      string  `json:"logfn,omitempty"` // "" unset | same | replace | nil
+	Repl       *c07Err `json:"repl,omitempty"`  // logfn == replace: what LogErrorFunc returns
+	LogLevel   int     `json:"loglevel,omitempty"`
+	NoStack    bool    `json:"no_stack,omitempty"`
+	NoStackAll bool    `json:"no_stack_all,omitempty"`
+	StackSize  int     `json:"stack_size,omitempty"`
+	// cerr: err := next(c); if err != nil { c.Error(err) }; return err (Ret) / nil
+	Ret bool `json:"ret,omitempty"`
 }
 
 type c07Case struct {
-	Debug     bool    `json:"debug"`
-	Method    string  `json:"method"`
+	Debug  bool   `json:"debug"`
+	Method string `json:"method"`
+	// legacy chain description (corpus files): Double = outer cerr{Ret}, Recover = Recover() or
+	// RecoverWithConfig{DisableErrorHandler, DisablePrintStack}; used only when Layers is empty
 	Recover   bool    `json:"recover"`
 	DisableEH bool    `json:"disable_eh,omitempty"`
 	Double    bool    `json:"double,omitempty"`
@@ -54,14 +96,91 @@ type c07Case struct {
 	RoundTrip bool    `json:"round_trip,omitempty"`
 	// further failing requests served by the SAME Echo instance, one after the other on the same
 	// goroutine (so sync.Pool hands the context of the previous request back); only the
-	// per-request fields (Method, Pre, PreCode, Panic, PanicT, Err) of these are used
+	// per-request fields (Method, Pre, PreCode, Panic, PanicT, Err, Skip, Via, Ctx, WFail) of these are used
 	Then []*c07Case `json:"then,omitempty"`
+
+	// ---- Echo level ----
+	// the middleware chain, OUTERMOST FIRST; the first NPre go to e.Pre, the next NUse to e.Use,
+	// the next NGroup to the group, the rest to the route
+	Layers   []c07Layer `json:"layers,omitempty"`
+	NPre     int        `json:"npre,omitempty"`
+	NUse     int        `json:"nuse,omitempty"`
+	NGroup   int        `json:"ngroup,omitempty"`
+	CustomEH bool       `json:"custom_eh,omitempty"` // Echo.HTTPErrorHandler = counting wrapper around DefaultHTTPErrorHandler
+	PreNoop  bool       `json:"pre_noop,omitempty"`  // a transparent Pre middleware (ServeHTTP's premiddleware branch)
+	// ---- request level ----
+	Skip  []int  `json:"skip,omitempty"`  // indices of Recover layers whose Skipper skips this request
+	Via   string `json:"via,omitempty"`   // "" our handler | 404 | 405: the router's own handlers return echo.ErrNotFound / echo.ErrMethodNotAllowed
+	Ctx   string `json:"ctx,omitempty"`   // request context: "" live | cancelled | deadline
+	WFail bool   `json:"wfail,omitempty"` // every Write on the underlying writer fails
+	// where the error is raised: "" in the route's handler | pre | use | group: in a middleware
+	// that sits innermost at that level (so only the layers of that level and outside see it)
+	From string `json:"from,omitempty"`
+}
+
+// ---- well-known error values ----
+
+// plain errors (no *HTTPError): atom 9000+index
+var c07StdErrs = []error{
+	context.Canceled, context.DeadlineExceeded, io.EOF, io.ErrUnexpectedEOF, io.ErrClosedPipe,
+	http.ErrAbortHandler, http.ErrHandlerTimeout, http.ErrServerClosed, http.ErrBodyNotAllowed, http.ErrNoCookie,
+	os.ErrNotExist, os.ErrDeadlineExceeded, net.ErrClosed, sql.ErrNoRows,
+	echo.ErrValidatorNotRegistered, echo.ErrRendererNotRegistered, echo.ErrInvalidRedirectCode, echo.ErrCookieNotFound,
+}
+
+const c07StdAbort = 6 // http.ErrAbortHandler
+
+// echo's exported *HTTPError variables; an error tree may use them only with increasing index
+// from the outside in (no cycles through SetInternal)
+var c07EchoSent = []*echo.HTTPError{
+	echo.ErrInternalServerError, echo.ErrBadGateway, echo.ErrServiceUnavailable, echo.ErrGatewayTimeout,
+	echo.ErrBadRequest, echo.ErrUnauthorized, echo.ErrForbidden, echo.ErrNotFound, echo.ErrMethodNotAllowed,
+	echo.ErrRequestTimeout, echo.ErrConflict, echo.ErrStatusRequestEntityTooLarge, echo.ErrUnsupportedMediaType,
+	echo.ErrUnprocessableEntity, echo.ErrTooManyRequests, echo.ErrTeapot,
+}
+
+const (
+	c07SentISE      = 1
+	c07SentNotFound = 8
+	c07SentNotAllow = 9
+)
+
+// cases that touch echo's exported variables run alone
+var c07Globals sync.RWMutex
+
+func c07ResetSentinels() {
+	for _, he := range c07EchoSent {
+		he.Internal = nil
+	}
+}
+
+func c07UsesSent(e *c07Err) bool {
+	for ; e != nil; e = e.In {
+		if e.Sent > 0 {
+			return true
+		}
+	}
+	return false
 }
 
 // ---- markers: every atom is a unique string ----
 func c07Mk(t int) string { return "qx" + strconv.Itoa(t) + "xq" }
 
 var c07MkRe = regexp.MustCompile(`qx(\d+)xq|\b7(\d{6})\b`)
+
+type c07StdText struct {
+	text string
+	atom int
+}
+
+var c07StdTexts = func() []c07StdText {
+	var l []c07StdText
+	for i, e := range c07StdErrs {
+		l = append(l, c07StdText{e.Error(), 9001 + i})
+	}
+	sort.Slice(l, func(i, j int) bool { return len(l[i].text) > len(l[j].text) }) // longest first ("unexpected EOF" before "EOF")
+	return l
+}()
 
 func c07Atoms(s string) []int {
 	seen := map[int]bool{}
@@ -73,12 +192,32 @@ func c07Atoms(s string) []int {
 		n, _ := strconv.Atoi(d)
 		seen[n] = true
 	}
+	for _, st := range c07StdTexts {
+		if strings.Contains(s, st.text) {
+			seen[st.atom] = true
+			s = strings.ReplaceAll(s, st.text, " ")
+		}
+	}
 	var out []int
 	for n := range seen {
 		out = append(out, n)
 	}
 	sort.Ints(out)
 	return out
+}
+
+// atom and text of a plain / wrap node
+func c07Atom(e *c07Err) int {
+	if e.K == "plain" && e.Std > 0 {
+		return 9000 + e.Std
+	}
+	return e.T
+}
+func c07Text(e *c07Err) string {
+	if e.K == "plain" && e.Std > 0 {
+		return c07StdErrs[e.Std-1].Error()
+	}
+	return c07Mk(e.T)
 }
 
 // ---- message / error values of various Go types ----
@@ -94,6 +233,18 @@ func (m c07MarshErr) MarshalJSON() ([]byte, error) {
 	return json.Marshal(map[string]string{"doc": m.ID})
 }
 func (m c07MarshErr) Error() string { return "marshErr " + m.ID }
+
+// an application error type with Unwrap
+type c07Wrapper struct {
+	text  string
+	inner error
+}
+
+func (w *c07Wrapper) Error() string { return w.text + " <- " + w.inner.Error() }
+func (w *c07Wrapper) Unwrap() error { return w.inner }
+
+// a message of a named string type is not a `string` for the handler's type switch
+type c07NamedString string
 
 type c07DocStruct struct {
 	Doc string `json:"doc"`
@@ -112,6 +263,9 @@ func c07BuildMsg(m *c07Msg) interface{} {
 		}
 		return c07Marsh{c07Mk(m.T)}
 	case "other":
+		if m.V == 5 {
+			return c07NamedString(c07Mk(m.T))
+		}
 		switch m.V % 3 {
 		case 1:
 			return c07DocStruct{c07Mk(m.T)}
@@ -126,12 +280,23 @@ func c07BuildMsg(m *c07Msg) interface{} {
 func c07Build(e *c07Err) error {
 	switch e.K {
 	case "plain":
+		if e.Std > 0 {
+			return c07StdErrs[e.Std-1]
+		}
 		return errors.New(c07Mk(e.T))
 	case "wrap":
+		switch e.V % 3 {
+		case 1:
+			return errors.Join(errors.New(c07Mk(e.T)), c07Build(e.In))
+		case 2:
+			return &c07Wrapper{c07Mk(e.T), c07Build(e.In)}
+		}
 		return fmt.Errorf(c07Mk(e.T)+": %w", c07Build(e.In))
 	}
 	var he *echo.HTTPError
-	if e.Msg.K == "dflt" {
+	if e.Sent > 0 {
+		he = c07EchoSent[e.Sent-1]
+	} else if e.Msg.K == "dflt" {
 		he = echo.NewHTTPError(e.Code)
 	} else if e.V%2 == 0 {
 		he = echo.NewHTTPError(e.Code, c07BuildMsg(e.Msg))
@@ -148,15 +313,95 @@ func c07Build(e *c07Err) error {
 	return he
 }
 
+// ---- symbolic copy of what c07Build does to echo's exported variables ----
+//
+// alias form: a node with Sent > 0 stands for "the variable itself" (its Internal lives in the
+// heap); every other node is a value of its own.
+type c07Heap map[int]*c07Err
+
+var c07Dflt = &c07Msg{K: "dflt"}
+
+func (h c07Heap) build(e *c07Err) *c07Err {
+	if e == nil {
+		return nil
+	}
+	switch e.K {
+	case "plain":
+		return e
+	case "wrap":
+		return &c07Err{K: "wrap", T: e.T, V: e.V, In: h.build(e.In)}
+	}
+	in := h.build(e.In)
+	if e.Sent > 0 {
+		code := c07EchoSent[e.Sent-1].Code
+		if e.In != nil && e.V%3 == 0 { // WithInternal: a fresh copy, the variable stays as it is
+			return &c07Err{K: "http", Code: code, Msg: c07Dflt, In: in}
+		}
+		if e.In != nil { // SetInternal: the variable itself is changed and returned
+			h[e.Sent] = in
+		}
+		return &c07Err{K: "http", Sent: e.Sent, Code: code, Msg: c07Dflt}
+	}
+	d := *e
+	d.In = in
+	return &d
+}
+
+// the tree an alias-form value has NOW
+func (h c07Heap) resolve(a *c07Err) *c07Err {
+	if a == nil {
+		return nil
+	}
+	d := *a
+	if a.K == "http" && a.Sent > 0 {
+		d.Sent = 0
+		d.In = h.resolve(h[a.Sent])
+	} else {
+		d.In = h.resolve(a.In)
+	}
+	return &d
+}
+
+// exported variables are used with strictly increasing index from the outside in; trees a
+// LogErrorFunc returns do not use them at all
+func c07ValidErr(e *c07Err, allowSent bool) bool {
+	last := 0
+	for ; e != nil; e = e.In {
+		switch e.K {
+		case "plain":
+			if e.Std < 0 || e.Std > len(c07StdErrs) || e.In != nil {
+				return false
+			}
+		case "wrap":
+			if e.In == nil {
+				return false
+			}
+		case "http":
+			if e.Sent != 0 {
+				if !allowSent || e.Sent <= last || e.Sent > len(c07EchoSent) {
+					return false
+				}
+				last = e.Sent
+			} else if e.Msg == nil {
+				return false
+			}
+		default:
+			return false
+		}
+	}
+	return true
+}
+
 func c07EncMsg(m *c07Msg) string {
 	k := map[string]int{"str": 0, "dflt": 1, "err": 2, "marsh": 3, "other": 4, "nil": 5}[m.K]
 	return wJoin(wInt(k), wInt(m.T))
 }
 
+// resolved trees only
 func c07EncErr(e *c07Err) string {
 	switch e.K {
 	case "plain":
-		return wJoin("0", wInt(e.T))
+		return wJoin("0", wInt(c07Atom(e)))
 	case "wrap":
 		return wJoin("1", wInt(e.T), c07EncErr(e.In))
 	}
@@ -166,33 +411,165 @@ func c07EncErr(e *c07Err) string {
 	return wJoin("3", wInt(e.Code), c07EncMsg(e.Msg), c07EncErr(e.In))
 }
 
-// line for the model: number of requests, then each request with the Echo-level configuration
-func c07Ops(c *c07Case) string {
-	parts := []string{wInt(1 + len(c.Then)), c07OpsOne(c, c)}
-	for _, rq := range c.Then {
-		parts = append(parts, c07OpsOne(c, rq))
+// ---- the chain ----
+
+// layers (outermost first) and their placement; legacy fields are translated
+func (c *c07Case) chain() (layers []c07Layer, nPre, nUse, nGroup int) {
+	if len(c.Layers) > 0 {
+		nPre, nUse, nGroup = c.NPre, c.NUse, c.NGroup
+		clamp := func(v *int, max int) {
+			if *v < 0 {
+				*v = 0
+			}
+			if *v > max {
+				*v = max
+			}
+		}
+		clamp(&nPre, len(c.Layers))
+		clamp(&nUse, len(c.Layers)-nPre)
+		clamp(&nGroup, len(c.Layers)-nPre-nUse)
+		return c.Layers, nPre, nUse, nGroup
 	}
-	return strings.Join(parts, " ")
+	if c.Double {
+		layers = append(layers, c07Layer{K: "cerr", Ret: true})
+	}
+	if c.Recover {
+		if c.DisableEH {
+			layers = append(layers, c07Layer{K: "recover", DisableEH: true, NoStack: true})
+		} else {
+			layers = append(layers, c07Layer{K: "recover", Default: true})
+		}
+	}
+	return layers, 0, len(layers), 0
 }
 
-func c07OpsOne(cfg, c *c07Case) string {
-	pre := map[string]int{"": 0, "wrote": 1, "nocontent": 2, "flush": 3, "jsonbad": 4, "writeheader": 5}[c.Pre]
-	parts := []string{wBool(cfg.Debug), wBool(c.Method == http.MethodHead), wBool(cfg.Recover), wBool(cfg.DisableEH), wBool(cfg.Double),
-		wInt(pre), wInt(c.PreCode)}
-	switch c.Panic {
-	case "":
-		parts = append(parts, "0", c07EncErr(c.Err))
-	case "err":
-		parts = append(parts, "1", "0", c07EncErr(c.Err))
-	case "str":
-		parts = append(parts, "1", "1", wInt(c.PanicT))
-	case "int":
-		parts = append(parts, "1", "2", wInt(c.PanicT))
-	case "struct":
-		parts = append(parts, "1", "3", wInt(c.PanicT))
-	case "abort":
-		parts = append(parts, "1", "4")
+func c07IsAbort(rq *c07Case) bool {
+	return rq.Panic == "abort" || (rq.Panic == "err" && rq.Err != nil && rq.Err.K == "plain" && rq.Err.Std == c07StdAbort)
+}
+
+func c07Skips(rq *c07Case, i int, l c07Layer) bool {
+	if l.K != "recover" || l.Default {
+		return false
 	}
+	for _, k := range rq.Skip {
+		if k == i {
+			return true
+		}
+	}
+	return false
+}
+
+// what the chain must do with the request, from the documented contract of the middlewares
+// (harness's own cerr; Recover: Skipper, ErrAbortHandler re-panicked, LogErrorFunc's result
+// replaces the error, DisableErrorHandler hands the error upstream instead of calling c.Error)
+type c07Expect struct {
+	crash     bool
+	swallowed bool    // a LogErrorFunc returned nil
+	final     *c07Err // resolved tree of the error the client must be told about
+	replBy    int     // index of the layer whose LogErrorFunc replaced the error, or -1
+	catcher   int     // index of the Recover layer that caught the panic, or -1
+	nInv      int     // HTTPErrorHandler invocations
+}
+
+func c07Travel(layers []c07Layer, rq *c07Case, raised *c07Err) c07Expect {
+	x := c07Expect{replBy: -1, catcher: -1}
+	panicking := rq.Panic != ""
+	cur := raised         // the error the chain carries
+	carrying := !panicking // does next(c) return it at this level?
+	for i := len(layers) - 1; i >= 0; i-- {
+		l := layers[i]
+		switch {
+		case l.K == "recover" && panicking:
+			if c07Skips(rq, i, l) || c07IsAbort(rq) {
+				continue
+			}
+			panicking, carrying, x.catcher = false, true, i
+			if !l.Default {
+				switch l.LogFn {
+				case "replace":
+					cur, x.replBy = l.Repl, i
+				case "nil":
+					carrying, x.swallowed = false, true
+				}
+			}
+			if carrying && !(l.DisableEH && !l.Default) {
+				x.nInv++ // c.Error(err); the chain goes on with nil
+				carrying = false
+			}
+		case l.K == "cerr" && carrying:
+			x.nInv++
+			carrying = l.Ret
+		}
+	}
+	if panicking {
+		return c07Expect{crash: true, replBy: -1, catcher: -1}
+	}
+	if carrying {
+		x.nInv++ // ServeHTTP
+	}
+	if !x.swallowed {
+		x.final = cur
+	}
+	return x
+}
+
+// effective chain of a request: the router's own 404/405 handlers are inside Pre and Use only
+func c07Effective(cfg, rq *c07Case) []c07Layer {
+	layers, nPre, nUse, nGroup := cfg.chain()
+	switch {
+	case rq.From == "pre":
+		return layers[:nPre]
+	case rq.Via != "" || rq.From == "use":
+		return layers[:nPre+nUse]
+	case rq.From == "group":
+		return layers[:nPre+nUse+nGroup]
+	}
+	return layers
+}
+
+func c07EncLayer(rq *c07Case, i int, l c07Layer) string {
+	if l.K == "cerr" {
+		return wJoin("1", wBool(l.Ret))
+	}
+	if l.Default {
+		return "0 0 0 0"
+	}
+	fn := "0"
+	switch l.LogFn {
+	case "same":
+		fn = "1"
+	case "replace":
+		fn = wJoin("2", c07EncErr(l.Repl))
+	case "nil":
+		fn = "3"
+	}
+	return wJoin("0", wBool(c07Skips(rq, i, l)), wBool(l.DisableEH), fn)
+}
+
+// model line of one request; raised = resolved tree of the raised error value (nil for non-error panics)
+func c07OpsOne(cfg, c *c07Case, raised *c07Err) string {
+	pre := map[string]int{"": 0, "wrote": 1, "nocontent": 2, "flush": 3, "jsonbad": 4, "writeheader": 5}[c.Pre]
+	layers := c07Effective(cfg, c)
+	parts := []string{wBool(cfg.Debug), wBool(c.Method == http.MethodHead), wInt(len(layers))}
+	for i, l := range layers {
+		parts = append(parts, c07EncLayer(c, i, l))
+	}
+	parts = append(parts, wInt(pre), wInt(c.PreCode))
+	switch {
+	case c07IsAbort(c):
+		parts = append(parts, "1", "4")
+	case c.Panic == "":
+		parts = append(parts, "0", c07EncErr(raised))
+	case c.Panic == "err":
+		parts = append(parts, "1", "0", c07EncErr(raised))
+	case c.Panic == "str":
+		parts = append(parts, "1", "1", wInt(c.PanicT))
+	case c.Panic == "int":
+		parts = append(parts, "1", "2", wInt(c.PanicT))
+	case c.Panic == "struct":
+		parts = append(parts, "1", "3", wInt(c.PanicT))
+	}
+	parts = append(parts, wBool(cfg.CustomEH))
 	return strings.Join(parts, " ")
 }
 
@@ -201,7 +578,10 @@ type c07Writer struct {
 	h      http.Header
 	calls  []int
 	chunks [][]byte
+	fail   bool
 }
+
+var errC07Write = errors.New("underlying writer: connection lost")
 
 func (w *c07Writer) Header() http.Header  { return w.h }
 func (w *c07Writer) WriteHeader(code int) { w.calls = append(w.calls, code) }
@@ -210,6 +590,9 @@ func (w *c07Writer) Write(b []byte) (int, error) {
 		w.calls = append(w.calls, -200) // implicit 200 of the underlying writer: echo wrote without committing
 	}
 	w.chunks = append(w.chunks, append([]byte(nil), b...))
+	if w.fail {
+		return 0, errC07Write
+	}
 	return len(b), nil
 }
 func (w *c07Writer) Flush() {
@@ -217,6 +600,26 @@ func (w *c07Writer) Flush() {
 		w.calls = append(w.calls, -200)
 	}
 }
+
+// ---- recording logger: where Recover logs the stack, what the error handler logs ----
+type c07Logger struct {
+	echo.Logger
+	st *c07State
+}
+
+func (l *c07Logger) rec(level string, i []interface{}) {
+	s := fmt.Sprint(i...)
+	if strings.Contains(s, "[PANIC RECOVER]") {
+		l.st.panicLogs = append(l.st.panicLogs, level)
+	} else if level == "ERROR" {
+		l.st.errorLogs++
+	}
+}
+func (l *c07Logger) Print(i ...interface{}) { l.rec("PRINT", i) }
+func (l *c07Logger) Debug(i ...interface{}) { l.rec("DEBUG", i) }
+func (l *c07Logger) Info(i ...interface{})  { l.rec("INFO", i) }
+func (l *c07Logger) Warn(i ...interface{})  { l.rec("WARN", i) }
+func (l *c07Logger) Error(i ...interface{}) { l.rec("ERROR", i) }
 
 // canonical form of one body chunk, in the model's encDoc format
 func c07CanonChunk(b []byte, status int) string {
@@ -271,8 +674,8 @@ func c07CanonChunk(b []byte, status int) string {
 	return "9"
 }
 
-// ---- what the property demands, computed from the error value alone ----
-func c07Effective(e *c07Err) (int, *c07Msg) {
+// ---- what the property demands, computed from the (resolved) error value alone ----
+func c07Rule(e *c07Err) (int, *c07Msg) {
 	if e.K == "http" {
 		he := e
 		if e.In != nil && e.In.K == "http" {
@@ -284,14 +687,12 @@ func c07Effective(e *c07Err) (int, *c07Msg) {
 }
 
 // texts of non-HTTP errors anywhere in the value: must never reach the client unless Debug
-func c07Secrets(e *c07Err, out *[]int) {
-	if e == nil {
-		return
+func c07Secrets(e *c07Err, out *[]string) {
+	for ; e != nil; e = e.In {
+		if e.K == "plain" || e.K == "wrap" {
+			*out = append(*out, c07Text(e))
+		}
 	}
-	if e.K == "plain" || e.K == "wrap" {
-		*out = append(*out, e.T)
-	}
-	c07Secrets(e.In, out)
 }
 
 func c07Depth(e *c07Err) int {
@@ -301,33 +702,123 @@ func c07Depth(e *c07Err) int {
 	return 1 + c07Depth(e.In)
 }
 
-func c07NewEcho(c *c07Case, cur func() *c07Case, onCtx func(echo.Context)) *echo.Echo {
-	e := echo.New()
-	e.Logger.SetOutput(io.Discard)
-	e.Debug = c.Debug
-	if c.Double {
-		e.Use(func(next echo.HandlerFunc) echo.HandlerFunc {
+// ---- everything observed while one case runs ----
+type c07State struct {
+	cur     *c07Case       // the request being served
+	resp    *echo.Response // its echo.Response
+	raised  error          // the error value its handler built (returned or panicked with)
+	repl    map[int]error  // what the LogErrorFunc of layer i returns
+	ehErrs  []error        // errors the configured HTTPErrorHandler was invoked with
+	logFn   []c07LogFnCall // LogErrorFunc invocations
+	skipper []int          // layers whose Skipper was consulted
+
+	panicLogs []string // levels at which "[PANIC RECOVER] ..." was logged
+	errorLogs int      // other Logger.Error calls (the error handler's own write failed)
+}
+
+type c07LogFnCall struct {
+	layer int
+	err   error
+	stack int
+}
+
+func (st *c07State) reset(rq *c07Case) {
+	st.cur, st.resp, st.raised = rq, nil, nil
+	st.ehErrs, st.logFn, st.skipper, st.panicLogs, st.errorLogs = nil, nil, nil, nil, 0
+}
+
+func c07SkipHeader(rq *c07Case) string {
+	var p []string
+	for _, k := range rq.Skip {
+		p = append(p, strconv.Itoa(k))
+	}
+	return "," + strings.Join(p, ",") + ","
+}
+
+func c07Middleware(c *c07Case, st *c07State, i int, l c07Layer, skippable bool) echo.MiddlewareFunc {
+	if l.K == "cerr" {
+		return func(next echo.HandlerFunc) echo.HandlerFunc {
 			return func(ctx echo.Context) error {
 				err := next(ctx)
 				if err != nil {
 					ctx.Error(err)
 				}
-				return err
+				if l.Ret {
+					return err
+				}
+				return nil
 			}
+		}
+	}
+	if l.Default {
+		return middleware.Recover()
+	}
+	cfg := middleware.RecoverConfig{
+		StackSize: l.StackSize, DisableStackAll: l.NoStackAll, DisablePrintStack: l.NoStack,
+		LogLevel: log.Lvl(l.LogLevel), DisableErrorHandler: l.DisableEH,
+	}
+	if skippable { // otherwise left nil: the constructor fills in the default
+		key := "," + strconv.Itoa(i) + ","
+		cfg.Skipper = func(ctx echo.Context) bool {
+			st.skipper = append(st.skipper, i)
+			return strings.Contains(ctx.Request().Header.Get("X-Skip"), key)
+		}
+	}
+	switch l.LogFn {
+	case "same":
+		cfg.LogErrorFunc = func(_ echo.Context, err error, stack []byte) error {
+			st.logFn = append(st.logFn, c07LogFnCall{i, err, len(stack)})
+			return err
+		}
+	case "replace":
+		cfg.LogErrorFunc = func(_ echo.Context, err error, stack []byte) error {
+			st.logFn = append(st.logFn, c07LogFnCall{i, err, len(stack)})
+			return st.repl[i]
+		}
+	case "nil":
+		cfg.LogErrorFunc = func(_ echo.Context, err error, stack []byte) error {
+			st.logFn = append(st.logFn, c07LogFnCall{i, err, len(stack)})
+			return nil
+		}
+	}
+	return middleware.RecoverWithConfig(cfg)
+}
+
+func c07NewEcho(c *c07Case, st *c07State) *echo.Echo {
+	e := echo.New()
+	e.Logger.SetOutput(io.Discard)
+	e.Logger = &c07Logger{Logger: e.Logger, st: st}
+	e.Debug = c.Debug
+	if c.CustomEH {
+		e.HTTPErrorHandler = func(err error, ctx echo.Context) {
+			st.ehErrs = append(st.ehErrs, err)
+			e.DefaultHTTPErrorHandler(err, ctx)
+		}
+	}
+	layers, nPre, nUse, nGroup := c.chain()
+	skippable := map[int]bool{}
+	for _, rq := range append([]*c07Case{c}, c.Then...) {
+		for _, k := range rq.Skip {
+			skippable[k] = true
+		}
+	}
+	st.repl = map[int]error{}
+	var mws []echo.MiddlewareFunc
+	for i, l := range layers {
+		if l.K == "recover" && l.LogFn == "replace" && l.Repl != nil {
+			st.repl[i] = c07Build(l.Repl)
+		}
+		mws = append(mws, c07Middleware(c, st, i, l, skippable[i]))
+	}
+	if c.PreNoop {
+		e.Pre(func(next echo.HandlerFunc) echo.HandlerFunc {
+			return func(ctx echo.Context) error { return next(ctx) }
 		})
 	}
-	if c.Recover {
-		if c.DisableEH {
-			e.Use(middleware.RecoverWithConfig(middleware.RecoverConfig{DisableErrorHandler: true, DisablePrintStack: true}))
-		} else {
-			e.Use(middleware.Recover())
-		}
-	}
-	h := func(ctx echo.Context) error {
-		if onCtx != nil {
-			onCtx(ctx)
-		}
-		c := cur() // the request being served
+	// the failing code: what it does to the response first, then how it fails
+	raise := func(ctx echo.Context) error {
+		c := st.cur // the request being served
+		st.resp = ctx.Response()
 		switch c.Pre {
 		case "wrote":
 			_ = ctx.String(c.PreCode, "pre")
@@ -342,9 +833,11 @@ func c07NewEcho(c *c07Case, cur func() *c07Case, onCtx func(echo.Context)) *echo
 		}
 		switch c.Panic {
 		case "":
-			return c07Build(c.Err)
+			st.raised = c07Build(c.Err)
+			return st.raised
 		case "err":
-			panic(c07Build(c.Err))
+			st.raised = c07Build(c.Err)
+			panic(st.raised)
 		case "str":
 			panic(c07Mk(c.PanicT))
 		case "int":
@@ -356,32 +849,144 @@ func c07NewEcho(c *c07Case, cur func() *c07Case, onCtx func(echo.Context)) *echo
 		}
 		return nil
 	}
-	e.Any("/x", h)
+	// a middleware that fails instead of calling next, for the requests raised at its level
+	raiser := func(level string) echo.MiddlewareFunc {
+		return func(next echo.HandlerFunc) echo.HandlerFunc {
+			return func(ctx echo.Context) error {
+				if st.cur != nil && st.cur.From == level && st.cur.Via == "" {
+					return raise(ctx)
+				}
+				return next(ctx)
+			}
+		}
+	}
+	fromLevels := map[string]bool{}
+	for _, rq := range append([]*c07Case{c}, c.Then...) {
+		fromLevels[rq.From] = true
+	}
+	e.Pre(mws[:nPre]...)
+	if fromLevels["pre"] {
+		e.Pre(raiser("pre"))
+	}
+	// transparent: lets the harness see the echo.Response of every request (also of those the
+	// router answers itself)
+	e.Use(func(next echo.HandlerFunc) echo.HandlerFunc {
+		return func(ctx echo.Context) error {
+			st.resp = ctx.Response()
+			return next(ctx)
+		}
+	})
+	e.Use(mws[nPre : nPre+nUse]...)
+	e.Use(raiser("use"))
+	h := raise
+	g := e.Group("/g", append(append([]echo.MiddlewareFunc(nil), mws[nPre+nUse:nPre+nUse+nGroup]...), raiser("group"))...)
+	g.Any("/x", h, mws[nPre+nUse+nGroup:]...)
 	e.GET("/ok", func(ctx echo.Context) error { return ctx.String(http.StatusOK, "ok") })
+	e.GET("/only", func(ctx echo.Context) error { return ctx.String(http.StatusOK, "ok") })
 	return e
+}
+
+// the router answers itself: the request's error is echo's own variable
+func c07Normalise(rq *c07Case) {
+	switch rq.Via {
+	case "404":
+		rq.Pre, rq.PreCode, rq.Panic, rq.PanicT = "", 0, "", 0
+		rq.Err = &c07Err{K: "http", Sent: c07SentNotFound}
+	case "405":
+		rq.Pre, rq.PreCode, rq.Panic, rq.PanicT = "", 0, "", 0
+		rq.Err = &c07Err{K: "http", Sent: c07SentNotAllow}
+		if rq.Method == http.MethodGet || rq.Method == http.MethodOptions {
+			rq.Method = http.MethodPost // OPTIONS is answered 204 by the router, not an error
+		}
+	default:
+		rq.Via = ""
+	}
+	if rq.Via != "" || (rq.From != "pre" && rq.From != "use" && rq.From != "group") {
+		rq.From = ""
+	}
+}
+
+func c07Valid(c *c07Case) bool {
+	layers, _, _, _ := c.chain()
+	for _, l := range layers {
+		if l.K != "recover" && l.K != "cerr" {
+			return false
+		}
+		if l.K == "recover" && l.LogFn == "replace" && (l.Repl == nil || !c07ValidErr(l.Repl, false)) {
+			return false
+		}
+		if l.LogLevel < 0 || l.LogLevel > 7 || l.StackSize < 0 || l.StackSize > 1<<16 {
+			return false
+		}
+	}
+	for _, rq := range append([]*c07Case{c}, c.Then...) {
+		switch rq.Panic {
+		case "", "err":
+			if rq.Err == nil || !c07ValidErr(rq.Err, true) {
+				return false
+			}
+		case "str", "int", "struct", "abort":
+		default:
+			return false
+		}
+		if rq.Method == "" {
+			return false
+		}
+	}
+	return true
 }
 
 func c07Run(ci any) (res Result) {
 	c := ci.(*c07Case)
+	reqs := append([]*c07Case{c}, c.Then...)
+	for _, rq := range reqs {
+		c07Normalise(rq)
+	}
+	if !c07Valid(c) {
+		return Result{Tags: []string{"invalid-case"}}
+	}
+	exclusive := false
+	for _, rq := range reqs {
+		if c07UsesSent(rq.Err) {
+			exclusive = true
+		}
+	}
+	if exclusive {
+		c07Globals.Lock()
+		defer c07Globals.Unlock()
+		c07ResetSentinels()
+		defer c07ResetSentinels()
+	} else {
+		c07Globals.RLock()
+		defer c07Globals.RUnlock()
+	}
 	ops := ""
 	defer func() {
 		if p := recover(); p != nil {
 			res = Result{Ops: ops, Obs: "harness-panic", Oracle: fmt.Sprintf("panic outside ServeHTTP: %v", p)}
 		}
 	}()
-	ops = c07Ops(c)
-	reqs := append([]*c07Case{c}, c.Then...)
-	var resp *echo.Response
-	cur := c
-	e := c07NewEcho(c, func() *c07Case { return cur }, func(ctx echo.Context) { resp = ctx.Response() })
+	st := &c07State{}
+	e := c07NewEcho(c, st)
+	heap := c07Heap{}
 
 	oracle := ""
 	tagSet := map[string]bool{}
 	obs := []string{wInt(len(reqs))}
+	opsParts := []string{wInt(len(reqs))}
 	nontrivial := len(reqs) > 1
 	for i, rq := range reqs {
-		cur, resp = rq, nil
-		o, msg, nt := c07One(e, c, rq, &resp, tagSet)
+		st.reset(rq)
+		// the value the handler is about to build, as a tree: SetInternal on an exported variable
+		// takes effect now, and what was stored there by earlier requests shows through
+		var raised *c07Err
+		switch rq.Panic {
+		case "", "err":
+			raised = heap.resolve(heap.build(rq.Err))
+		}
+		opsParts = append(opsParts, c07OpsOne(c, rq, raised))
+		ops = strings.Join(opsParts, " ")
+		o, msg, nt := c07One(e, c, rq, raised, st, tagSet, exclusive)
 		obs = append(obs, o)
 		nontrivial = nontrivial || nt
 		if msg != "" && oracle == "" {
@@ -403,6 +1008,7 @@ func c07Run(ci any) (res Result) {
 				oracle = fmt.Sprintf("follow-up request panicked: %v", r)
 			}
 		}()
+		st.reset(&c07Case{})
 		e.ServeHTTP(rec, httptest.NewRequest(http.MethodGet, "/ok", nil))
 	}()
 	if (rec.Code != http.StatusOK || rec.Body.String() != "ok") && oracle == "" {
@@ -415,11 +1021,31 @@ func c07Run(ci any) (res Result) {
 	return Result{Ops: ops, Obs: strings.Join(obs, " "), Oracle: oracle, Tags: tags, Nontrivial: nontrivial}
 }
 
-// c07One serves one failing request (c) on the Echo built from cfg and judges it on its own:
+// c07One serves one failing request (rq) on the Echo built from cfg and judges it on its own:
 // observation in the model's format, oracle verdict, non-triviality
-func c07One(e *echo.Echo, cfg, c *c07Case, resp **echo.Response, tagSet map[string]bool) (string, string, bool) {
-	w := &c07Writer{h: http.Header{}}
-	req := httptest.NewRequest(c.Method, "/x", nil)
+func c07One(e *echo.Echo, cfg, c *c07Case, raised *c07Err, st *c07State, tagSet map[string]bool, exclusive bool) (string, string, bool) {
+	w := &c07Writer{h: http.Header{}, fail: c.WFail}
+	path := "/g/x"
+	switch c.Via {
+	case "404":
+		path = "/nope"
+	case "405":
+		path = "/only"
+	}
+	req := httptest.NewRequest(c.Method, path, nil)
+	if len(c.Skip) > 0 {
+		req.Header.Set("X-Skip", c07SkipHeader(c))
+	}
+	switch c.Ctx {
+	case "cancelled":
+		ctx, cancel := context.WithCancel(req.Context())
+		cancel()
+		req = req.WithContext(ctx)
+	case "deadline":
+		ctx, cancel := context.WithDeadline(req.Context(), time.Unix(0, 0))
+		defer cancel()
+		req = req.WithContext(ctx)
+	}
 	crashed := false
 	committed := false
 	func() {
@@ -429,7 +1055,7 @@ func c07One(e *echo.Echo, cfg, c *c07Case, resp **echo.Response, tagSet map[stri
 			}
 		}()
 		e.ServeHTTP(w, req)
-		committed = *resp != nil && (*resp).Committed
+		committed = st.resp != nil && st.resp.Committed
 	}()
 
 	oracle := ""
@@ -456,46 +1082,70 @@ func c07One(e *echo.Echo, cfg, c *c07Case, resp **echo.Response, tagSet map[stri
 		for _, ch := range w.chunks {
 			p = append(p, c07CanonChunk(ch, status))
 		}
+		// hand-overs to Echo.HTTPErrorHandler, visible only through the counting wrapper
+		p = append(p, wInt(len(st.ehErrs)))
 		obs = strings.Join(p, " ")
 	}
 
 	// ---------- model-free oracle ----------
+	layers := c07Effective(cfg, c)
+	carried := raised // the error value travelling up the chain, as a tree
+	if c.Panic == "str" || c.Panic == "int" || c.Panic == "struct" {
+		carried = &c07Err{K: "plain", T: c.PanicT}
+	}
+	want := c07Travel(layers, c, carried)
 	head := c.Method == http.MethodHead
 	preCommitted := c.Pre == "wrote" || c.Pre == "nocontent" || c.Pre == "flush" || c.Pre == "writeheader"
-	expectCrash := c.Panic != "" && (!cfg.Recover || c.Panic == "abort")
 	var body []byte
 	for _, ch := range w.chunks {
 		body = append(body, ch...)
 	}
-	if expectCrash {
+	if want.crash {
 		tag("unrecovered-panic")
 		if !crashed {
-			fail("a panic without Recover (or http.ErrAbortHandler) did not leave ServeHTTP")
+			fail("a panic that no Recover instance handles (none installed, all skipping, or http.ErrAbortHandler) did not leave ServeHTTP")
 		}
 	} else if crashed {
-		fail("the panic escaped ServeHTTP although Recover is installed")
+		if c.Panic == "" {
+			fail("ServeHTTP panicked although the handler only returned an error")
+		} else {
+			fail("the panic escaped ServeHTTP although a Recover instance that does not skip the request is installed")
+		}
 	} else {
 		// information leak (checked first: the gravest way to fail)
 		if !cfg.Debug {
-			var secrets []int
-			if c.Panic == "" || c.Panic == "err" {
-				c07Secrets(c.Err, &secrets)
-			} else {
-				secrets = append(secrets, c.PanicT)
+			var secrets []string
+			c07Secrets(carried, &secrets)
+			if want.final != nil && want.final != carried {
+				c07Secrets(want.final, &secrets)
+			}
+			if c.Panic == "int" {
+				secrets = append(secrets, strconv.Itoa(7000000+c.PanicT))
 			}
 			for _, s := range secrets {
-				if bytes.Contains(body, []byte(c07Mk(s))) || bytes.Contains(body, []byte(strconv.Itoa(7000000+s))) {
-					fail("text of internal error (atom %d) reached the client with Debug off: %q", s, body)
+				if bytes.Contains(body, []byte(s)) {
+					fail("text of an internal (non-HTTP) error (%q) reached the client with Debug off: %q", s, body)
 				}
 			}
 		}
-		if len(w.calls) != 1 {
-			fail("exactly one response expected, the underlying writer received WriteHeader calls %v", w.calls)
-		} else if w.calls[0] < 0 {
-			fail("body written without a status line (underlying writer had to send its implicit 200)")
+		if want.swallowed {
+			tag("LogErrorFunc-returned-nil")
 		}
-		if !committed {
-			fail("Response.Committed is false after the error was handled")
+		if want.swallowed && !preCommitted {
+			// the application's LogErrorFunc returned nil: echo's contract is that the error
+			// handler is not called; nothing must have been written on its behalf
+			if len(w.calls) != 0 || len(w.chunks) != 0 || committed {
+				fail("LogErrorFunc returned nil (error handler must not be called) but a response was written: WriteHeader calls %v, body %q", w.calls, body)
+			}
+		} else {
+			if len(w.calls) != 1 {
+				fail("exactly one response expected, the underlying writer received WriteHeader calls %v", w.calls)
+			} else if w.calls[0] < 0 {
+				fail("body written without a status line (underlying writer had to send its implicit 200)")
+			}
+			if !committed {
+				fail("Response.Committed is false after the error was handled")
+			}
 		}
 		if preCommitted {
 			tag("committed-before")
@@ -510,15 +1160,9 @@ func c07One(e *echo.Echo, cfg, c *c07Case, resp **echo.Response, tagSet map[stri
 			if status != wantStatus || string(body) != wantBody {
 				fail("response was committed (%d %q) before the error; afterwards status %d body %q", wantStatus, wantBody, status, body)
 			}
-		} else {
-			// which error reaches the handler
-			var code int
-			var msg *c07Msg
-			if c.Panic == "" || c.Panic == "err" {
-				code, msg = c07Effective(c.Err)
-			} else {
-				code, msg = http.StatusInternalServerError, nil
-			}
+		} else if !want.swallowed {
+			// the rule, applied to the error the chain ends up reporting
+			code, msg := c07Rule(want.final)
 			if status != code {
 				fail("status %d, the error value demands %d", status, code)
 			}
@@ -552,11 +1196,11 @@ func c07One(e *echo.Echo, cfg, c *c07Case, resp **echo.Response, tagSet map[stri
 							fail("message %q expected, body %q", wantText, body)
 						}
 					} else {
-						want, _ := json.Marshal(c07BuildMsg(msg))
+						wantDoc, _ := json.Marshal(c07BuildMsg(msg))
 						var wv interface{}
-						json.Unmarshal(want, &wv)
+						json.Unmarshal(wantDoc, &wv)
 						if fmt.Sprint(wv) != fmt.Sprint(v) {
-							fail("body %q is not the message value %s", body, want)
+							fail("body %q is not the message value %s", body, wantDoc)
 						}
 					}
 					if _, has := obj["error"]; has && !cfg.Debug {
@@ -565,10 +1209,58 @@ func c07One(e *echo.Echo, cfg, c *c07Case, resp **echo.Response, tagSet map[stri
 				}
 			}
 		}
+		// "ServeHTTP hands the chain's error to HTTPErrorHandler once", c.Error reaches the
+		// CONFIGURED handler: the counting wrapper saw every hand-over, each with the error the
+		// chain carried
+		if cfg.CustomEH {
+			tag("custom-HTTPErrorHandler")
+			if len(st.ehErrs) != want.nInv {
+				fail("Echo.HTTPErrorHandler was invoked %d times, the chain hands the error over %d times", len(st.ehErrs), want.nInv)
+			}
+			for _, got := range st.ehErrs {
+				switch {
+				case want.replBy >= 0:
+					if got != st.repl[want.replBy] {
+						fail("Echo.HTTPErrorHandler was given %v, not the error LogErrorFunc returned", got)
+					}
+				case c.Panic == "" || c.Panic == "err":
+					if c.Via == "" && got != st.raised {
+						fail("Echo.HTTPErrorHandler was given %v, not the error the handler raised", got)
+					}
+				default:
+					if at := c07Atoms(got.Error()); len(at) != 1 || at[0] != c.PanicT {
+						fail("Echo.HTTPErrorHandler was given %q for a panic value carrying atom %d", got.Error(), c.PanicT)
+					}
+				}
+			}
+		}
+		// Recover hands LogErrorFunc the recovered error and (unless disabled) the stack
+		if want.catcher >= 0 {
+			l := layers[want.catcher]
+			if !l.Default && l.LogFn != "" {
+				tag("LogErrorFunc:" + l.LogFn)
+				if len(st.logFn) != 1 || st.logFn[0].layer != want.catcher {
+					fail("LogErrorFunc of the catching Recover (layer %d) must run exactly once, ran %d times", want.catcher, len(st.logFn))
+				} else {
+					got := st.logFn[0]
+					if c.Panic == "err" && got.err != st.raised {
+						fail("LogErrorFunc was given %v, not the error value the handler panicked with", got.err)
+					}
+					if (got.stack > 0) == l.NoStack {
+						fail("LogErrorFunc got a stack of %d bytes with DisablePrintStack=%v", got.stack, l.NoStack)
+					}
+				}
+			} else if len(st.logFn) != 0 {
+				fail("a LogErrorFunc ran although the catching Recover has none")
+			}
+			for _, lv := range st.panicLogs {
+				tag("stack-logged-at:" + lv)
+			}
+		}
 	}
 
 	// real server round trip: what a client gets is what the recording writer saw
-	if cfg == c && c.RoundTrip && len(c.Then) == 0 && !expectCrash && !crashed {
+	if cfg == c && c.RoundTrip && len(c.Then) == 0 && !want.crash && !crashed && !exclusive && c.Ctx == "" && !c.WFail {
 		tag("round-trip")
 		if msg := c07RoundTrip(c, status, body); msg != "" {
 			fail("%s", msg)
@@ -583,19 +1275,70 @@ func c07One(e *echo.Echo, cfg, c *c07Case, resp **echo.Response, tagSet map[stri
 	} else {
 		tag("returned")
 	}
-	if cfg.Double {
-		tag("double-handling-middleware")
+	nrec := 0
+	for i, l := range layers {
+		if l.K == "cerr" {
+			if l.Ret {
+				tag("double-handling-middleware")
+			} else {
+				tag("middleware-reports-error-returns-nil")
+			}
+			continue
+		}
+		nrec++
+		if l.Default {
+			tag("Recover()")
+		}
+		if l.DisableEH && !l.Default {
+			tag("recover-returns-error")
+		}
+		if c07Skips(c, i, l) {
+			tag("recover-skipped")
+		}
+		if l.NoStack && !l.Default {
+			tag("DisablePrintStack")
+		}
 	}
-	if cfg.DisableEH {
-		tag("recover-returns-error")
+	if nrec >= 2 {
+		tag("two-or-more-Recover-instances")
+	}
+	if _, nPre, _, nGroup := cfg.chain(); nPre > 0 || cfg.PreNoop {
+		tag("pre-middleware")
+	} else if nGroup > 0 {
+		tag("group-middleware")
+	}
+	if c.Via != "" {
+		tag("router-" + c.Via)
+	}
+	if c.From != "" {
+		tag("raised-in-middleware:" + c.From)
+	}
+	if c.Ctx != "" {
+		tag("request-context-" + c.Ctx)
+	}
+	if c.WFail {
+		tag("underlying-write-fails")
+		if st.errorLogs > 0 {
+			tag("error-handler-write-failure-logged")
+		}
+	}
+	if exclusive {
+		tag("exported-echo-error-variable")
+	}
+	for x := carried; x != nil; x = x.In {
+		if x.K == "plain" && x.Std > 0 {
+			tag("well-known-plain-error")
+		}
 	}
 	if c.Err != nil {
 		tag("top:" + c.Err.K)
 		if c.Err.K == "http" {
-			tag("msg:" + c.Err.Msg.K)
+			if c.Err.Sent == 0 {
+				tag("msg:" + c.Err.Msg.K)
+			}
 			if c.Err.In != nil {
 				tag("internal:" + c.Err.In.K)
-				if c.Err.In.K == "http" {
+				if c.Err.In.K == "http" && c.Err.In.Sent == 0 {
 					tag("carried-msg:" + c.Err.In.Msg.K)
 				}
 			}
@@ -610,14 +1353,24 @@ func c07One(e *echo.Echo, cfg, c *c07Case, resp **echo.Response, tagSet map[stri
 	if c.Pre == "jsonbad" {
 		tag("status-preset-before")
 	}
-	return obs, oracle, c07Depth(c.Err) >= 2 || c.Panic != "" || preCommitted || cfg.Double
+	return obs, oracle, c07Depth(carried) >= 2 || c.Panic != "" || preCommitted || len(layers) >= 2
 }
 
 func c07RoundTrip(c *c07Case, status int, body []byte) string {
-	e := c07NewEcho(c, func() *c07Case { return c }, nil)
+	st := &c07State{}
+	e := c07NewEcho(c, st)
+	st.reset(c)
 	srv := httptest.NewServer(e)
 	defer srv.Close()
-	req, _ := http.NewRequest(c.Method, srv.URL+"/x", nil)
+	req, _ := http.NewRequest(c.Method, srv.URL+"/g/x", nil)
+	if c.Via == "404" {
+		req, _ = http.NewRequest(c.Method, srv.URL+"/nope", nil)
+	} else if c.Via == "405" {
+		req, _ = http.NewRequest(c.Method, srv.URL+"/only", nil)
+	}
+	if len(c.Skip) > 0 {
+		req.Header.Set("X-Skip", c07SkipHeader(c))
+	}
 	// the server's own client/transport: Server.Close of a concurrently running case closes the
 	// idle connections of http.DefaultTransport
 	client := srv.Client()
@@ -628,6 +1381,9 @@ func c07RoundTrip(c *c07Case, status int, body []byte) string {
 	}
 	defer resp.Body.Close()
 	got, _ := io.ReadAll(resp.Body)
+	if status == 0 {
+		status = 200 // nothing was written through echo: net/http answers with its own 200
+	}
 	if resp.StatusCode != status {
 		return fmt.Sprintf("real server: client status %d, recording writer %d", resp.StatusCode, status)
 	}
@@ -639,6 +1395,7 @@ func c07RoundTrip(c *c07Case, status int, body []byte) string {
 		return fmt.Sprintf("real server: client body %q, recording writer %q", got, want)
 	}
 	// and the server goes on serving
+	st.reset(&c07Case{})
 	r2, err := client.Get(srv.URL + "/ok")
 	if err != nil {
 		return fmt.Sprintf("real server: follow-up failed: %v", err)
@@ -675,27 +1432,114 @@ func (g *c07G) msg() *c07Msg {
 	}
 	return m
 }
-func (g *c07G) err(depth int) *c07Err {
+func (g *c07G) plain() *c07Err {
+	if g.r.Intn(5) == 0 {
+		return &c07Err{K: "plain", Std: 1 + g.r.Intn(len(c07StdErrs))}
+	}
+	return &c07Err{K: "plain", T: g.atom()}
+}
+
+// minSent: exported echo variables may be used with an index above this one only (0 = any,
+// len(c07EchoSent) = none)
+func (g *c07G) err(depth, minSent int) *c07Err {
 	k := g.r.Intn(10)
 	switch {
 	case depth <= 1 && k < 4, k < 2:
-		return &c07Err{K: "plain", T: g.atom()}
+		return g.plain()
 	case k < 4 && depth > 1:
-		return &c07Err{K: "wrap", T: g.atom(), In: g.err(depth - 1)}
+		return &c07Err{K: "wrap", T: g.atom(), V: g.r.Intn(3), In: g.err(depth-1, minSent)}
 	}
 	e := &c07Err{K: "http", Code: g.code(), Msg: g.msg(), V: g.r.Intn(6)}
+	if minSent < len(c07EchoSent) && g.r.Intn(6) == 0 {
+		e.Sent = minSent + 1 + g.r.Intn(len(c07EchoSent)-minSent)
+		if g.r.Intn(3) == 0 {
+			e.Sent = minSent + 1 // the lowest one still allowed (0 → ErrInternalServerError)
+		}
+		e.Code, e.Msg = c07EchoSent[e.Sent-1].Code, nil
+		minSent = e.Sent
+	}
 	if depth > 1 && g.r.Intn(3) != 0 {
-		e.In = g.err(depth - 1)
+		e.In = g.err(depth-1, minSent)
 	}
 	return e
 }
 
-func c07GenCase(r *rand.Rand, maxDepth int) *c07Case {
+func (g *c07G) layer() c07Layer {
+	r := g.r
+	if r.Intn(5) < 2 {
+		return c07Layer{K: "cerr", Ret: r.Intn(3) != 0}
+	}
+	if r.Intn(4) == 0 {
+		return c07Layer{K: "recover", Default: true}
+	}
+	l := c07Layer{K: "recover", DisableEH: r.Intn(3) == 0, NoStack: r.Intn(3) == 0, NoStackAll: r.Intn(2) == 0,
+		LogLevel: []int{0, 0, 1, 2, 3, 4, 5, 6}[r.Intn(8)], StackSize: []int{0, 0, 1, 64, 4096, 16384}[r.Intn(6)]}
+	switch r.Intn(8) {
+	case 0, 1:
+		l.LogFn = "same"
+	case 2, 3:
+		l.LogFn = "replace"
+		rg := &c07G{r: r, next: 4000 + 50*r.Intn(20)}
+		l.Repl = rg.err(1+r.Intn(3), len(c07EchoSent))
+	case 4:
+		l.LogFn = "nil"
+	}
+	return l
+}
+
+// Echo-level configuration
+func c07GenConfig(r *rand.Rand, c *c07Case) {
 	g := &c07G{r: r}
-	c := &c07Case{
-		Debug:   r.Intn(3) == 0,
-		Method:  []string{http.MethodGet, http.MethodGet, http.MethodHead, http.MethodPost}[r.Intn(4)],
-		Recover: r.Intn(8) != 0,
+	c.Debug = r.Intn(3) == 0
+	n := []int{0, 1, 1, 1, 2, 2, 3, 4}[r.Intn(8)]
+	c.Layers = nil
+	for i := 0; i < n; i++ {
+		c.Layers = append(c.Layers, g.layer())
+	}
+	if n > 0 && r.Intn(4) != 0 {
+		// most chains contain a Recover, as the property assumes
+		has := false
+		for _, l := range c.Layers {
+			has = has || l.K == "recover"
+		}
+		if !has {
+			c.Layers[r.Intn(n)] = c07Layer{K: "recover", Default: r.Intn(2) == 0}
+		}
+	}
+	c.NPre, c.NUse, c.NGroup = 0, 0, 0
+	switch r.Intn(4) {
+	case 0: // all at Use level
+		c.NUse = n
+	case 1: // all on the route
+	default:
+		for i := 0; i < n; i++ {
+			switch r.Intn(4) {
+			case 0:
+				if c.NUse == 0 && c.NGroup == 0 && i == c.NPre {
+					c.NPre++
+				}
+			case 1:
+				if c.NGroup == 0 && i == c.NPre+c.NUse {
+					c.NUse++
+				}
+			case 2:
+				if i == c.NPre+c.NUse+c.NGroup {
+					c.NGroup++
+				}
+			}
+		}
+	}
+	c.CustomEH = r.Intn(3) == 0
+	c.PreNoop = r.Intn(6) == 0
+	c.Recover, c.DisableEH, c.Double = false, false, false
+}
+
+// one failing request for the chain of cfg
+func c07GenRequest(r *rand.Rand, cfg *c07Case, maxDepth int) *c07Case {
+	g := &c07G{r: r}
+	c := &c07Case{Method: []string{http.MethodGet, http.MethodGet, http.MethodGet, http.MethodHead, http.MethodHead, http.MethodPost, http.MethodPut, http.MethodDelete, http.MethodOptions, http.MethodPatch}[r.Intn(10)]}
+	if r.Intn(6) == 0 {
+		c.From = []string{"pre", "use", "group"}[r.Intn(3)]
 	}
 	if r.Intn(3) == 0 {
 		c.Pre = []string{"wrote", "nocontent", "flush", "jsonbad", "writeheader"}[r.Intn(5)]
@@ -703,22 +1547,43 @@ func c07GenCase(r *rand.Rand, maxDepth int) *c07Case {
 			c.PreCode = g.code()
 		}
 	}
-	if c.Recover && r.Intn(4) == 0 {
-		c.DisableEH = true
-	}
-	c.Double = r.Intn(5) == 0
 	if r.Intn(5) < 2 {
 		c.Panic = []string{"err", "err", "str", "int", "struct", "abort"}[r.Intn(6)]
-	} else {
-		c.Recover = r.Intn(2) == 0 // returned errors: with and without Recover in the chain
 	}
 	switch c.Panic {
 	case "", "err":
-		c.Err = g.err(1 + r.Intn(maxDepth))
+		c.Err = g.err(1+r.Intn(maxDepth), 0)
 	case "abort":
 	default:
 		c.PanicT = g.atom()
 	}
+	for i, l := range cfg.Layers {
+		if l.K == "recover" && !l.Default && r.Intn(5) == 0 {
+			c.Skip = append(c.Skip, i)
+		}
+	}
+	switch r.Intn(24) {
+	case 0:
+		c.Via = "404"
+	case 1:
+		c.Via = "405"
+	}
+	switch r.Intn(12) {
+	case 0:
+		c.Ctx = "cancelled"
+	case 1:
+		c.Ctx = "deadline"
+	}
+	c.WFail = r.Intn(12) == 0
+	c07Normalise(c)
+	return c
+}
+
+func c07GenCase(r *rand.Rand, maxDepth int) *c07Case {
+	cfg := &c07Case{}
+	c07GenConfig(r, cfg)
+	c := c07GenRequest(r, cfg, maxDepth)
+	c.Debug, c.Layers, c.NPre, c.NUse, c.NGroup, c.CustomEH, c.PreNoop = cfg.Debug, cfg.Layers, cfg.NPre, cfg.NUse, cfg.NGroup, cfg.CustomEH, cfg.PreNoop
 	return c
 }
 
@@ -730,16 +1595,17 @@ func c07Gen(r *rand.Rand, tier string) []any {
 	var out []any
 	for i := 0; i < n; i++ {
 		c := c07GenCase(r, depth)
-		// a third of the cases: 1-3 more failing requests through the same Echo (pooled context reused)
+		// a third of the cases: 1-3 more failing requests through the same Echo (pooled context
+		// reused, exported error variables keep what SetInternal stored in them)
 		if r.Intn(3) == 0 {
 			for k := 1 + r.Intn(3); k > 0; k-- {
-				c.Then = append(c.Then, c07GenCase(r, depth))
+				c.Then = append(c.Then, c07GenRequest(r, c, depth))
 			}
 		}
 		out = append(out, c)
 	}
 	// sequences aimed at state that survives a request: panic after panic, error after panic,
-	// panic after error, with every Echo-level configuration
+	// panic after error, with every legacy Echo-level configuration
 	for _, recoverOn := range []bool{true, false} {
 		for _, disableEH := range []bool{false, true} {
 			for _, double := range []bool{false, true} {
@@ -751,7 +1617,7 @@ func c07Gen(r *rand.Rand, tier string) []any {
 							g := &c07G{r: r, next: 100 * i}
 							rq := &c07Case{Method: []string{http.MethodGet, http.MethodPost, http.MethodHead}[r.Intn(3)], Panic: k}
 							if k == "" || k == "err" {
-								rq.Err = g.err(1 + r.Intn(depth))
+								rq.Err = g.err(1+r.Intn(depth), len(c07EchoSent))
 							} else {
 								rq.PanicT = g.atom()
 							}
@@ -803,9 +1669,213 @@ func c07Gen(r *rand.Rand, tier string) []any {
 			}
 		}
 	}
+	out = append(out, c07GenValues(r)...)
+	out = append(out, c07GenChains(r)...)
 	for i := 0; i < nrt; i++ {
 		c := c07GenCase(r, depth)
+		for c07UsesSent(c.Err) || c.Ctx != "" || c.WFail {
+			c = c07GenCase(r, depth)
+		}
 		c.RoundTrip = true
+		out = append(out, c)
+	}
+	return out
+}
+
+// well-known error VALUES: every one of them returned as it is, %w-wrapped, panicked with,
+// carried as Internal; echo's exported *HTTPError variables decorated with SetInternal /
+// WithInternal in one request and plain errors, panics, the bare variable and the router's own
+// 404/405 in the following requests of the same Echo
+func c07GenValues(r *rand.Rand) []any {
+	var out []any
+	chains := [][]c07Layer{
+		nil,
+		{{K: "recover", Default: true}},
+		{{K: "cerr", Ret: true}, {K: "recover", DisableEH: true, NoStack: true}},
+	}
+	for i := range c07StdErrs {
+		std := &c07Err{K: "plain", Std: i + 1}
+		shapes := []*c07Err{
+			std,
+			{K: "wrap", T: 31, In: std},
+			{K: "http", Code: 499, Msg: &c07Msg{K: "str", T: 32}, In: std, V: 1},
+			{K: "http", Code: 400, Msg: &c07Msg{K: "str", T: 33}, In: &c07Err{K: "http", Code: 502, Msg: &c07Msg{K: "dflt"}, In: std, V: 3}, V: 2},
+		}
+		for si, s := range shapes {
+			for ci, ch := range chains {
+				pk := ""
+				if ci > 0 && (si+ci+i)%2 == 0 {
+					pk = "err"
+				}
+				c := &c07Case{Debug: (i+si+ci)%3 == 0, Method: []string{http.MethodGet, http.MethodHead, http.MethodPost}[(i+si)%3],
+					Layers: ch, NUse: len(ch) * (i % 2), Panic: pk, Err: s, CustomEH: (i+ci)%2 == 0,
+					Ctx: []string{"", "", "cancelled", "deadline"}[(i+si+ci)%4], PreNoop: (i+si)%5 == 0}
+				out = append(out, c)
+			}
+		}
+	}
+	g := &c07G{r: r, next: 700}
+	// an exported variable behind a wrapper is not an HTTP error for the handler, whichever
+	// variable and whichever kind of wrapper (errors.Is / errors.As would find it)
+	for vi := range c07EchoSent {
+		bare := &c07Err{K: "http", Sent: vi + 1}
+		shapes := []*c07Err{
+			{K: "wrap", T: g.atom(), V: vi % 3, In: bare},
+			{K: "wrap", T: g.atom(), V: (vi + 1) % 3, In: &c07Err{K: "wrap", T: g.atom(), V: (vi + 2) % 3, In: bare}},
+			{K: "http", Code: 400, Msg: &c07Msg{K: "str", T: g.atom()}, V: 1, In: &c07Err{K: "wrap", T: g.atom(), V: vi % 3, In: bare}},
+			{K: "wrap", T: g.atom(), V: vi % 3, In: &c07Err{K: "http", Sent: vi + 1, V: 3, In: &c07Err{K: "plain", T: g.atom()}}},
+		}
+		for si, sh := range shapes {
+			pk := ""
+			if (vi+si)%2 == 1 {
+				pk = "err"
+			}
+			out = append(out, &c07Case{Debug: (vi+si)%5 == 0, Method: []string{http.MethodGet, http.MethodHead}[(vi+si)%2*(si%2)],
+				Layers: chains[1+(vi+si)%2], NUse: 1 + (vi+si)%2, Panic: pk, Err: sh, CustomEH: si%2 == 0})
+		}
+	}
+	for vi := range c07EchoSent {
+		carried := []*c07Err{
+			{K: "http", Code: 400, Msg: &c07Msg{K: "str", T: g.atom()}},                                    // what a failing Bind returns
+			{K: "http", Code: 422, Msg: &c07Msg{K: "other", T: g.atom()}, In: &c07Err{K: "plain", T: g.atom()}, V: 1},
+			{K: "plain", T: g.atom()},
+			{K: "plain", Std: 1 + r.Intn(len(c07StdErrs))},
+			{K: "wrap", T: g.atom(), In: &c07Err{K: "http", Code: 404, Msg: &c07Msg{K: "str", T: g.atom()}}},
+		}
+		if vi+1 < len(c07EchoSent) {
+			carried = append(carried, &c07Err{K: "http", Sent: vi + 2 + r.Intn(len(c07EchoSent)-vi-1)}) // another exported variable, as it is
+		}
+		for ci, in := range carried {
+			for _, v := range []int{1, 3} { // SetInternal, WithInternal
+				first := &c07Case{Debug: (vi+ci)%4 == 0, Method: http.MethodPost, CustomEH: ci%2 == 0,
+					Layers: chains[(vi+ci)%3], NUse: len(chains[(vi+ci)%3]),
+					Err: &c07Err{K: "http", Sent: vi + 1, In: in, V: v}}
+				later := []*c07Case{
+					{Method: http.MethodGet, Err: &c07Err{K: "plain", T: g.atom()}},
+					{Method: http.MethodHead, Err: &c07Err{K: "wrap", T: g.atom(), In: &c07Err{K: "plain", Std: 1 + r.Intn(len(c07StdErrs))}}},
+					{Method: http.MethodGet, Panic: "str", PanicT: g.atom()},
+					{Method: http.MethodGet, Err: &c07Err{K: "http", Sent: vi + 1}}, // the variable itself, afterwards
+					{Method: http.MethodGet, Via: "404"},
+					{Method: http.MethodPost, Via: "405"},
+					{Method: http.MethodGet, Err: &c07Err{K: "http", Code: 500, Msg: &c07Msg{K: "dflt"}}},
+				}
+				// two of them, in random order, after the decorating request
+				a, b := r.Intn(len(later)), r.Intn(len(later))
+				first.Then = []*c07Case{later[a]}
+				if b != a {
+					first.Then = append(first.Then, later[b])
+				}
+				out = append(out, first)
+			}
+		}
+	}
+	return out
+}
+
+// Recover's options and positions: Skipper, LogErrorFunc (same / replace / nil) with and without
+// DisableErrorHandler and an outer reporting middleware, every LogLevel, DisablePrintStack, stack
+// sizes, two instances, Pre / Use / group / route placement, the counting HTTPErrorHandler
+func c07GenChains(r *rand.Rand) []any {
+	var out []any
+	g := &c07G{r: r, next: 900}
+	raise := func(k int) *c07Case {
+		switch k % 6 {
+		case 0:
+			return &c07Case{Method: http.MethodGet, Panic: "str", PanicT: g.atom()}
+		case 1:
+			return &c07Case{Method: http.MethodGet, Panic: "err", Err: &c07Err{K: "http", Code: 409, Msg: &c07Msg{K: "str", T: g.atom()}, In: &c07Err{K: "plain", T: g.atom()}, V: 1}}
+		case 2:
+			return &c07Case{Method: http.MethodHead, Panic: "int", PanicT: g.atom()}
+		case 3:
+			return &c07Case{Method: http.MethodPost, Panic: "err", Err: &c07Err{K: "plain", Std: 1 + r.Intn(len(c07StdErrs))}}
+		case 4:
+			return &c07Case{Method: http.MethodGet, Err: &c07Err{K: "http", Code: 404, Msg: &c07Msg{K: "str", T: g.atom()}}}
+		}
+		return &c07Case{Method: http.MethodGet, Panic: "struct", PanicT: g.atom(), Pre: "jsonbad", PreCode: 202}
+	}
+	with := func(rq *c07Case, cfg c07Case) *c07Case {
+		rq.Debug, rq.Layers, rq.NPre, rq.NUse, rq.NGroup, rq.CustomEH, rq.PreNoop = cfg.Debug, cfg.Layers, cfg.NPre, cfg.NUse, cfg.NGroup, cfg.CustomEH, cfg.PreNoop
+		return rq
+	}
+	k := 0
+	repl := func() *c07Err {
+		rg := &c07G{r: r, next: 4000 + 50*(k%20)}
+		return []*c07Err{
+			{K: "http", Code: 503, Msg: &c07Msg{K: "str", T: rg.atom()}},
+			{K: "plain", T: rg.atom()},
+			{K: "http", Code: 400, Msg: &c07Msg{K: "dflt"}, In: &c07Err{K: "http", Code: 418, Msg: &c07Msg{K: "str", T: rg.atom()}}, V: 1},
+			{K: "plain", Std: 1 + r.Intn(len(c07StdErrs))},
+		}[k%4]
+	}
+	for _, fn := range []string{"", "same", "replace", "nil"} {
+		for _, dis := range []bool{false, true} {
+			for _, outer := range []int{0, 1, 2} { // none, cerr returning, cerr returning nil
+				for _, lvl := range []int{0, 1, 2, 3, 4, 5} {
+					k++
+					rec := c07Layer{K: "recover", DisableEH: dis, LogFn: fn, LogLevel: lvl, NoStack: k%3 == 0, NoStackAll: k%2 == 0, StackSize: []int{0, 1, 512}[k%3]}
+					if fn == "replace" {
+						rec.Repl = repl()
+					}
+					ch := []c07Layer{rec}
+					if outer > 0 {
+						ch = []c07Layer{{K: "cerr", Ret: outer == 1}, rec}
+					}
+					cfg := c07Case{Debug: k%5 == 0, Layers: ch, CustomEH: k%2 == 0, PreNoop: k%7 == 0}
+					switch k % 4 {
+					case 0:
+						cfg.NUse = len(ch)
+					case 1:
+						cfg.NPre = 1
+					case 2:
+						cfg.NGroup = len(ch)
+					}
+					c := with(raise(k), cfg)
+					c.Then = []*c07Case{raise(k + 1), raise(k + 4)}
+					out = append(out, c)
+				}
+			}
+		}
+	}
+	// Skipper: one / two / three instances, skipped in every combination
+	for n := 1; n <= 3; n++ {
+		for mask := 0; mask < 1<<n; mask++ {
+			for _, outerDefault := range []bool{false, true} {
+				k++
+				var ch []c07Layer
+				for i := 0; i < n; i++ {
+					ch = append(ch, c07Layer{K: "recover", DisableEH: (k+i)%3 == 0, NoStack: true})
+				}
+				if outerDefault {
+					ch = append([]c07Layer{{K: "recover", Default: true}}, ch...)
+				}
+				cfg := c07Case{Layers: ch, CustomEH: k%2 == 0, NUse: k % (len(ch) + 1)}
+				c := with(raise(k), cfg)
+				c.Then = []*c07Case{raise(k + 2)}
+				for _, rq := range append([]*c07Case{c}, c.Then...) {
+					for i := 0; i < n; i++ {
+						if mask&(1<<i) != 0 {
+							idx := i
+							if outerDefault {
+								idx++
+							}
+							rq.Skip = append(rq.Skip, idx)
+						}
+					}
+				}
+				// the second request is not skipped by the innermost instance
+				if len(c.Then[0].Skip) > 0 {
+					c.Then[0].Skip = c.Then[0].Skip[:len(c.Then[0].Skip)-1]
+				}
+				out = append(out, c)
+			}
+		}
+	}
+	// the underlying writer fails while the error handler writes
+	for i := 0; i < 24; i++ {
+		k++
+		c := with(raise(k), c07Case{Debug: i%2 == 0, Layers: []c07Layer{{K: "recover", Default: i%3 == 0, NoStack: true}}, NUse: 1, CustomEH: i%4 == 0})
+		c.WFail = true
+		c.Then = []*c07Case{raise(k + 1)}
 		out = append(out, c)
 	}
 	return out
@@ -816,6 +1886,11 @@ func c07Shrink(ci any) []any {
 	var out []any
 	add := func(f func(d *c07Case)) {
 		d := *c
+		d.Then = nil
+		for _, t := range c.Then {
+			tt := *t
+			d.Then = append(d.Then, &tt)
+		}
 		f(&d)
 		out = append(out, &d)
 	}
@@ -825,15 +1900,60 @@ func c07Shrink(ci any) []any {
 	for i := range c.Then {
 		i := i
 		// drop a later request; or drop everything before it (it becomes the first, keeping the configuration)
-		add(func(d *c07Case) { d.Then = append(append([]*c07Case(nil), c.Then[:i]...), c.Then[i+1:]...) })
+		add(func(d *c07Case) { d.Then = append(append([]*c07Case(nil), d.Then[:i]...), d.Then[i+1:]...) })
 	}
 	if len(c.Then) > 0 {
 		add(func(d *c07Case) {
-			h := *c.Then[0]
+			h := *d.Then[0]
 			h.Debug, h.Recover, h.DisableEH, h.Double, h.RoundTrip = c.Debug, c.Recover, c.DisableEH, c.Double, false
-			h.Then = append([]*c07Case(nil), c.Then[1:]...)
+			h.Layers, h.NPre, h.NUse, h.NGroup, h.CustomEH, h.PreNoop = c.Layers, c.NPre, c.NUse, c.NGroup, c.CustomEH, c.PreNoop
+			h.Then = d.Then[1:]
 			*d = h
 		})
+	}
+	// drop one middleware
+	for i := range c.Layers {
+		i := i
+		add(func(d *c07Case) {
+			d.Layers = append(append([]c07Layer(nil), c.Layers[:i]...), c.Layers[i+1:]...)
+			switch {
+			case i < c.NPre:
+				d.NPre--
+			case i < c.NPre+c.NUse:
+				d.NUse--
+			case i < c.NPre+c.NUse+c.NGroup:
+				d.NGroup--
+			}
+			for _, rq := range append([]*c07Case{d}, d.Then...) {
+				var sk []int
+				for _, k := range rq.Skip {
+					if k < i {
+						sk = append(sk, k)
+					} else if k > i {
+						sk = append(sk, k-1)
+					}
+				}
+				rq.Skip = sk
+			}
+		})
+	}
+	for i, l := range c.Layers {
+		i := i
+		if l.K == "recover" && !l.Default && (l.LogFn != "" || l.LogLevel != 0 || l.StackSize != 0 || l.NoStackAll) {
+			add(func(d *c07Case) {
+				d.Layers = append([]c07Layer(nil), c.Layers...)
+				d.Layers[i] = c07Layer{K: "recover", DisableEH: l.DisableEH, NoStack: l.NoStack}
+			})
+		}
+	}
+	if c.NPre+c.NUse+c.NGroup > 0 && c.NUse != len(c.Layers) {
+		add(func(d *c07Case) { d.NPre, d.NUse, d.NGroup = 0, len(d.Layers), 0 })
+	}
+	if c.CustomEH {
+		add(func(d *c07Case) { d.CustomEH = false })
+	}
+	if c.PreNoop {
+		add(func(d *c07Case) { d.PreNoop = false })
 	}
 	if c.Double {
 		add(func(d *c07Case) { d.Double = false })
@@ -850,13 +1970,44 @@ func c07Shrink(ci any) []any {
 	if c.Method != http.MethodGet {
 		add(func(d *c07Case) { d.Method = http.MethodGet })
 	}
+	if c.Ctx != "" {
+		add(func(d *c07Case) { d.Ctx = "" })
+	}
+	if c.WFail {
+		add(func(d *c07Case) { d.WFail = false })
+	}
+	if c.From != "" {
+		add(func(d *c07Case) { d.From = "" })
+	}
+	if len(c.Skip) > 0 {
+		add(func(d *c07Case) { d.Skip = nil })
+	}
 	if c.Panic == "err" {
 		add(func(d *c07Case) { d.Panic = "" })
 	}
-	if c.Err != nil {
+	if c.Err != nil && c.Via == "" {
 		for _, v := range c07ShrinkErr(c.Err) {
 			v := v
 			add(func(d *c07Case) { d.Err = v })
+		}
+	}
+	// the same simplifications inside the later requests
+	for i, t := range c.Then {
+		i, t := i, t
+		if t.Pre != "" {
+			add(func(d *c07Case) { d.Then[i].Pre, d.Then[i].PreCode = "", 0 })
+		}
+		if t.Method != http.MethodGet && t.Via != "405" {
+			add(func(d *c07Case) { d.Then[i].Method = http.MethodGet })
+		}
+		if t.Ctx != "" || t.WFail || len(t.Skip) > 0 || t.From != "" {
+			add(func(d *c07Case) { d.Then[i].Ctx, d.Then[i].WFail, d.Then[i].Skip, d.Then[i].From = "", false, nil, "" })
+		}
+		if t.Err != nil && t.Via == "" {
+			for _, v := range c07ShrinkErr(t.Err) {
+				v := v
+				add(func(d *c07Case) { d.Then[i].Err = v })
+			}
 		}
 	}
 	return out
@@ -881,10 +2032,23 @@ func c07ShrinkErr(e *c07Err) []*c07Err {
 	}
 	if e.K == "wrap" {
 		out = append(out, &c07Err{K: "plain", T: e.T})
+		if e.V != 0 {
+			d := *e
+			d.V = 0
+			out = append(out, &d)
+		}
 	}
-	if e.K == "http" && e.Msg.K != "str" {
+	if e.K == "plain" && e.Std > 0 {
+		out = append(out, &c07Err{K: "plain", T: 800 + e.Std})
+	}
+	if e.K == "http" && e.Sent == 0 && e.Msg.K != "str" {
 		d := *e
 		d.Msg = &c07Msg{K: "str", T: 900 + e.Msg.T}
+		out = append(out, &d)
+	}
+	if e.K == "http" && e.Sent > 0 {
+		d := *e
+		d.Sent, d.Msg = 0, &c07Msg{K: "dflt"}
 		out = append(out, &d)
 	}
 	return out
@@ -911,12 +2075,12 @@ func c07Mutate(r *rand.Rand, ci any) []any {
 func init() {
 	register(&Prop{
 		ID:             "C07",
-		Rule:           "error values as trees: plain | fmt.Errorf(%w) wrap | *echo.HTTPError (NewHTTPError / literal / SetInternal / WithInternal) with message kinds {string, default StatusText, error value, json.Marshaler (also one that is an error too), map/struct/slice, nil (no message: literal without Message, NewHTTPError(code, nil))} and Internal {none, plain, wrapped, HTTPError, nested}, depth <= 3 (thorough: 5), codes 200-599 incl. 204/304; x returned or panicked (panic values: error, string, int, struct, http.ErrAbortHandler) x Recover installed or not x RecoverConfig.DisableErrorHandler x an outer middleware that calls c.Error(err) AND returns err x handler did {nothing, String, NoContent, Flush, WriteHeader, failed JSON} before failing x GET/HEAD/POST x Debug; plus a fixed family aimed at the decision points (two Internal levels, %w around / inside an HTTPError); every text is a unique marker; a third of the cases and a fixed family serve 2-4 failing requests (returned errors and recovered panics, mixed) through the SAME Echo one after the other on one goroutine (pooled context reused), each judged on its own; a follow-up request checks the server still serves; thorough: 3000 cases also through a real httptest.Server; non-trivial = tree depth >= 2, or a panic, or committed before the error, or the double-handling middleware, or a sequence of requests",
+		Rule:           "an Echo configuration x a sequence of 1-4 failing requests through that one Echo, served one after the other on one goroutine (pooled context reused), each judged on its own.  Error values as trees: plain | wrap (fmt.Errorf(%w), errors.Join, an application type with Unwrap) | *echo.HTTPError (NewHTTPError / literal / SetInternal / WithInternal) with message kinds {string, default StatusText, error value, json.Marshaler (also one that is an error too), map/struct/slice/named string type, nil} and Internal {none, plain, wrapped, HTTPError, nested}, depth <= 3 (thorough: 5), codes 200-599 incl. 204/304; plain errors are unique markers or one of 18 well-known error VALUES (context.Canceled, context.DeadlineExceeded, io.EOF, io.ErrUnexpectedEOF, http.ErrAbortHandler (returned), http.ErrHandlerTimeout, os.ErrNotExist, sql.ErrNoRows, net.ErrClosed, echo.ErrValidatorNotRegistered, ...); HTTP errors may be built from 16 exported echo variables (echo.ErrInternalServerError, ErrNotFound, ErrUnauthorized, ...) as they are or decorated with SetInternal (changes the variable for all later requests; the harness tracks that symbolically, runs such cases alone and restores the variables) / WithInternal; the router's own 404 / 405 as error sources.  x raised in the route's handler or in a middleware at Pre / Use / group level x returned or panicked (panic values: error, string, int, struct, http.ErrAbortHandler) x a middleware chain of 0-4 layers, each a Recover instance (Recover() or RecoverWithConfig with DisableErrorHandler, Skipper skipping per request, LogErrorFunc returning the same error / another error / nil, every LogLevel, DisablePrintStack, DisableStackAll, StackSize 0/1/64/4096/16384) or a middleware that calls c.Error(err) and returns err or nil, placed at Pre / Use / group / route level x Echo.HTTPErrorHandler = the default or a counting wrapper around it (number of hand-overs and the error value handed over are checked) x handler did {nothing, String, NoContent, Flush, WriteHeader, failed JSON} before failing x GET/HEAD/POST/PUT/DELETE/OPTIONS/PATCH x Debug x request context live / cancelled / past its deadline x underlying writer accepting or failing every Write; fixed families: legacy configurations, decision points of the handler (two Internal levels, %w around / inside an HTTPError), every well-known value in four positions x three chains, every exported variable decorated in request 1 and plain errors / panics / the bare variable / router 404+405 afterwards, every LogErrorFunc mode x DisableErrorHandler x outer middleware x LogLevel, Skipper masks over 1-3 (+1 default) instances; every text is a unique marker; a follow-up request checks the server still serves; thorough: 3000 cases also through a real httptest.Server; non-trivial = tree depth >= 2, or a panic, or committed before the error, or a chain of >= 2 middlewares, or a sequence of requests",
 		New:            func() any { return &c07Case{} },
 		Gen:            c07Gen,
 		Run:            c07Run,
 		Shrink:         c07Shrink,
 		Mutate:         c07Mutate,
-		Correspondence: "C07.serveAll / C07.serve (lean/EchoModel/C07.lean) vs Echo.ServeHTTP + Echo.DefaultHTTPErrorHandler + middleware.Recover on a recording http.ResponseWriter",
+		Correspondence: "C07.serveAll / C07.serve (lean/EchoModel/C07.lean) vs Echo.ServeHTTP + Echo.DefaultHTTPErrorHandler + Context.Error + middleware.Recover / RecoverWithConfig on a recording http.ResponseWriter",
 	})
 }
